@@ -69,6 +69,7 @@ type Config struct {
 	Seed       uint64   // feeds the last-proposers list (sortition seed) and key selection
 	// phase timeouts in ms (0 = 1000); CommitTimeoutMS also is the real sleep of the commit goroutine, keep it small
 	ElectionMS, ElectionVoteMS, ProposeMS, ProposeVoteMS, PrecommitMS, PrecommitVoteMS, CommitMS int
+	PriorEvidence                                                                                bool // the correct replicas start the height holding double-sign evidence against the first Byzantine validator (collected at the end of the previous height)
 	MinEvidenceHeight                                                                            uint64
 	LastRootHeightUpdated                                                                        uint64 // CommitteeData.LastRootHeightUpdated
 }
@@ -252,6 +253,18 @@ func New(cfg Config) *Sim {
 		b.CommitteeData = &lib.CommitteeData{ChainId: ChainID, LastRootHeightUpdated: cfg.LastRootHeightUpdated, LastChainHeightUpdated: cfg.Height - 1}
 		r.B = b
 		b.NewHeight(false)
+	}
+	if cfg.PriorEvidence && len(s.Byzantine()) > 0 && cfg.RootHeight > 0 {
+		d := s.Byzantine()[0]
+		view := s.HeaderView(cfg.RootHeight-1, 0, PrecommitVote)
+		a, b := s.NewProposal(d, "prior-evidence/A", cfg.RootHeight-1), s.NewProposal(d, "prior-evidence/B", cfg.RootHeight-1)
+		ca, _ := s.CraftCert(&lib.QuorumCertificate{Header: view, BlockHash: a.BlockHash, ResultsHash: a.ResultsHash, ProposerKey: s.R[d].Pub}, []int{d})
+		cb, _ := s.CraftCert(&lib.QuorumCertificate{Header: view, BlockHash: b.BlockHash, ResultsHash: b.ResultsHash, ProposerKey: s.R[d].Pub}, []int{d})
+		for _, r := range s.R {
+			if !r.Byz {
+				_ = r.B.AddDSE(&r.B.ByzantineEvidence.DSE, &bft.DoubleSignEvidence{VoteA: cloneQC(ca), VoteB: cloneQC(cb)})
+			}
+		}
 	}
 	return s
 }
